@@ -143,3 +143,25 @@ Proof.
   - destruct f; try contradiction; intros _; (destruct (ls_att st) eqn:E; [intros [= <-]; apply Hc|intros [= <-]; exact E]).
   - destruct f; try contradiction; intros _; (destruct (ls_att st) eqn:E; [intros [= <-]; apply Hc|intros [= <-]; exact E]).
 Qed.
+
+(* ---- the originalClosed flag is what makes the two closing sites exclusive ---- *)
+(* whichever site runs first, the other one does not close again *)
+Theorem two_sites_close_once r : si_closer r = true -> si_origClosed r = false ->
+  si_count (closeOriginal (closeOriginalForDiscard r)) = si_count r + 1 /\
+  si_count (closeOriginalForDiscard (closeOriginal r)) = si_count r + 1 /\
+  si_origClosed (closeOriginalForDiscard r) = true /\ si_origClosed (closeOriginal r) = true.
+Proof.
+  intros Hc Ho. destruct r as [cl cnt wr oc gd]. cbn in Hc, Ho. subst. cbn. repeat split.
+Qed.
+
+(* a discard site that closes without setting the flag (the seeded defect), followed by the goroutine's
+   closeOriginal, closes the user's stream twice: the theorem above depends on the flag *)
+Definition closeOriginalForDiscard_noflag (r : sinfo) : sinfo :=
+  if si_origClosed r then r
+  else if si_closer r then mkSI true (si_count r + 1) (si_wrapped r) false (si_goDone r)
+  else r.
+Theorem flag_is_needed r : si_closer r = true -> si_origClosed r = false ->
+  si_count (closeOriginal (closeOriginalForDiscard_noflag r)) = si_count r + 2.
+Proof.
+  intros Hc Ho. destruct r as [cl cnt wr oc gd]. cbn in Hc, Ho. subst. cbn. lia.
+Qed.
